@@ -266,20 +266,115 @@ func eq(a, b string) string  { return "(= " + a + " " + b + ")" }
 func ite(c, a, b string) string { return "(ite " + c + " " + a + " " + b + ")" }
 func sel(a, i string) string { return "(select " + a + " " + i + ")" }
 func sto(a, i, v string) string { return "(store " + a + " " + i + " " + v + ")" }
+// splitConst decomposes a term into (base, constant): "(+ B k)" -> (B, k), "k" -> ("", k).
+func splitConst(t string) (string, *big.Int) {
+	if n, ok := parseNum(t); ok {
+		return "", n
+	}
+	if strings.HasPrefix(t, "(+ ") && strings.HasSuffix(t, ")") {
+		// last argument numeric?
+		inner := t[3 : len(t)-1]
+		args := splitArgs(inner)
+		if len(args) == 2 {
+			if n, ok := parseNum(args[1]); ok {
+				return args[0], n
+			}
+			if n, ok := parseNum(args[0]); ok {
+				return args[1], n
+			}
+		}
+	}
+	return t, big.NewInt(0)
+}
+
+func parseNum(t string) (*big.Int, bool) {
+	if strings.HasPrefix(t, "(- ") && strings.HasSuffix(t, ")") {
+		inner := strings.TrimSpace(t[3 : len(t)-1])
+		if n, ok := new(big.Int).SetString(inner, 10); ok && !strings.ContainsAny(inner, " ()") {
+			return n.Neg(n), true
+		}
+		return nil, false
+	}
+	if t == "" || strings.ContainsAny(t, " ()|") {
+		return nil, false
+	}
+	n, ok := new(big.Int).SetString(t, 10)
+	return n, ok
+}
+
+// splitArgs splits the argument list of an s-expression at top level.
+func splitArgs(s string) []string {
+	var out []string
+	depth := 0
+	start := 0
+	inBar := false
+	for i := 0; i < len(s); i++ {
+		ch := s[i]
+		if inBar {
+			if ch == '|' {
+				inBar = false
+			}
+			continue
+		}
+		switch ch {
+		case '|':
+			inBar = true
+		case '(':
+			depth++
+		case ')':
+			depth--
+		case ' ':
+			if depth == 0 {
+				if i > start {
+					out = append(out, s[start:i])
+				}
+				start = i + 1
+			}
+		}
+	}
+	if start < len(s) {
+		out = append(out, s[start:])
+	}
+	return out
+}
+
+func mkSum(base string, c *big.Int) string {
+	if base == "" {
+		return num(c)
+	}
+	if c.Sign() == 0 {
+		return base
+	}
+	return "(+ " + base + " " + num(c) + ")"
+}
+
 func add(a, b string) string {
-	if b == "0" {
-		return a
+	ba, ca := splitConst(a)
+	bb, cb := splitConst(b)
+	c := new(big.Int).Add(ca, cb)
+	switch {
+	case ba == "" && bb == "":
+		return num(c)
+	case ba == "":
+		return mkSum(bb, c)
+	case bb == "":
+		return mkSum(ba, c)
 	}
-	if a == "0" {
-		return b
-	}
-	return "(+ " + a + " " + b + ")"
+	return mkSum("(+ "+ba+" "+bb+")", c)
 }
 func sub(a, b string) string {
-	if b == "0" {
-		return a
+	ba, ca := splitConst(a)
+	bb, cb := splitConst(b)
+	c := new(big.Int).Sub(ca, cb)
+	switch {
+	case bb == "":
+		return mkSum(ba, c)
+	case ba == bb:
+		return num(c)
+	case ba == "":
+		return mkSum("(- "+bb+")", c)
 	}
-	return "(- " + a + " " + b + ")"
+	return mkSum("(- "+ba+" "+bb+")", c)
 }
 func le(a, b string) string { return "(<= " + a + " " + b + ")" }
 func lt(a, b string) string { return "(< " + a + " " + b + ")" }
